@@ -50,11 +50,8 @@ def discover(pid):
     for f in sorted(glob.glob(os.path.join(src, "**", "*.rs"), recursive=True)):
       txt = open(f).read()
       names = set()
-      # direct definitions
-      for m in re.finditer(r"#\[kani::proof\][^{;]*?fn\s+(%s_[qt]_\w+)\s*\(" % pre, txt, re.S):
-        names.add(m.group(1))
-      # macro instantiations:  some_macro!(c03_q_name, ...)
-      for m in re.finditer(r"^\s*\w+!\(\s*(%s_[qt]_\w+)\s*[,)]" % pre, txt, re.M):
+      code = re.sub(r"//[^\n]*", "", txt)  # harness names: every identifier c<NN>_[qt]_* outside comments
+      for m in re.finditer(r"\b(%s_[qt]_[a-z0-9_]+)\b" % pre, code):
         names.add(m.group(1))
       for n in sorted(names):
         tier = "quick" if n.split("_")[1] == "q" else "thorough"
